@@ -164,6 +164,26 @@ def d2(chk, prog, ploidies):
                 if i != 1 and cn != ref_exp_oracle(c, 2, hap, fem, None)[1]]
         got = [(r[0], str(r[4]).strip("<>")) for r in out]
         tb.cell(got == want, dict(case="second row has probes '-'", hap=hap, fem=fem, records=got, want=want))
+    # a table without a cn column (a .cns that was not called): cn = round(r * 2^log2) with r the reference's copies, compared with the sample's expected copies
+    for hap, fem, lg in itertools.product([False, True], [False, True], [0, 1, -1]):
+        W.reset()
+        classes = ["auto", "x", "y"]
+        rows = seg_rows(classes, "chr", [0, 0, 0], with_cn=False)
+        for r_ in rows:
+            r_["log2"] = Fr(lg)
+        g = make_ga("CopyNumArray", rows, {"_classes": classes, "sample_id": "S"}, index="range")
+        it = Interp(prog, par_model())
+        out = tb.guard(lambda: list(it.run(fi.qn, [g, 2, hap, None, fem])), f"no cn column, log2={lg} hap={hap} fem={fem}")
+        if out is None:
+            continue
+        want = []
+        for i, c in enumerate(classes):
+            r, x = ref_exp_oracle(c, 2, hap, fem, None)
+            cn = round(r * Fr(2) ** lg)
+            if cn != x:
+                want.append((rows[i]["chromosome"], "DEL" if cn < x else "DUP"))
+        got = [(r[0], str(r[4]).strip("<>")) for r in out]
+        tb.cell(got == want, dict(case="no cn column", log2=lg, hap=hap, fem=fem, records=got, want=want))
     tb.done("export vcf does not emit exactly the non-neutral segments with the stated POS / END / SVTYPE / SVLEN / CN")
     # export_vcf, interpreted with segments2vcf stubbed: its records under the ten VCF columns (the last one named after the sample), the flags passed on in their roles
     fv = prog.fn(f"{EXP}.export_vcf")
